@@ -48,6 +48,7 @@ func (dw *defaultWalkerPipeline) worker(ctx context.Context, wg *sync.WaitGroup,
 			if !ok {
 				return
 			}
+			verifPoint("walk.recv")
 			if err := dw.walkNode(root, callback); err != nil {
 				sendErr(ctx, errc, err)
 			}
